@@ -20,7 +20,7 @@ Fail(kind, e, name) == PrintT(<<"FAIL", kind, e.t, l, e.a, name>>)
 Chk(ok, kind, e, name) == IF ok THEN TRUE ELSE Fail(kind, e, name)
 
 Bind(e) ==
-  /\ policy' = ToSet(e.st.policy) /\ policyFile' = ToSet(e.st.policyFile)
+  /\ policy' = ToSet(e.st.policy) /\ policyFile' = ToSet(e.st.policyFile) /\ fileOK' = e.st.fileOK
   /\ st' = [s \in Streams |-> Rec(e.st.st[s])]
   /\ cursors' = [s \in Streams |-> e.st.cursors[s]]
   /\ members' = ToSet(e.st.members)
@@ -32,7 +32,7 @@ CallOf(e) == [m |-> e.args.call.m, c |-> e.args.call.c, s |-> e.args.call.s, res
 
 TraceInit ==
   LET e == Trace[1] IN
-  /\ policy = ToSet(e.st.policy) /\ policyFile = ToSet(e.st.policyFile)
+  /\ policy = ToSet(e.st.policy) /\ policyFile = ToSet(e.st.policyFile) /\ fileOK = e.st.fileOK
   /\ st = [s \in Streams |-> Rec(e.st.st[s])]
   /\ cursors = [s \in Streams |-> e.st.cursors[s]]
   /\ members = ToSet(e.st.members)
@@ -54,6 +54,9 @@ TraceNext ==
           [] e.a = "EditPolicy" ->
                /\ Chk(P_Edit, "P", e, "C15_EditNotLoaded")
                /\ Chk(policy' = policy /\ World' = World, "I", e, "Edit")
+          [] e.a = "BreakFile" ->
+               /\ Chk(P_Edit, "P", e, "C15_EditNotLoaded")
+               /\ Chk(DoBreakFile, "I", e, "BreakFile")
           [] e.a = "Reload" ->
                /\ Chk(P_Reload, "P", e, "C15_ReloadEffective")
                /\ Chk(DoReload, "I", e, "Reload")
